@@ -1,6 +1,6 @@
 #!/bin/bash
 # screening pass over every stored patch (seeded*/ and harmless*/) with tools/fastcheck.py, N at a time
 cd /verif
-ls -d harmless/*_* harmless2/*_* harmless3/*_* harmless4/*_* harmless5/*_* seeded/C*_* seeded2/C*_* seeded3/C*_* seeded4/C*_* seeded5/C*_* seeded6/C*_* seeded7/C*_* \
+ls -d harmless/*_* harmless2/*_* harmless3/*_* harmless4/*_* harmless5/*_* seeded/C*_* seeded2/C*_* seeded3/C*_* seeded4/C*_* seeded5/C*_* seeded6/C*_* seeded7/C*_* seeded8/C*_* \
   | xargs -P ${1:-8} -L 1 python3-vt tools/fastcheck.py 2>/dev/null | grep '^FAST'
 echo ALLDONE
